@@ -560,12 +560,14 @@ Feature(goal, c) ==
     ELSE IF goal = "Duration" THEN
       (IF \E f \in {R.dur.y, R.dur.mo, R.dur.w} : Abs(f) = Sub(Two32, FromInt(1)) THEN "field-of-4294967295"
        ELSE IF R.fr = 5 THEN "fractional-hours" ELSE IF R.fr = 6 THEN "fractional-minutes" ELSE IF R.fr = 7 THEN "fractional-seconds" ELSE "integer-units")
-    ELSE IF goal \in {"PlainYearMonth", "PlainMonthDay"} /\ R.form = "dt" /\ ~IsIso(R) THEN "full-date-form-non-iso-calendar"
-    ELSE IF goal = "PlainMonthDay" /\ R.form = "dt" THEN "full-date-form"
+    \* (the annotation features first: they name the cause whatever the form of the string before them)
     ELSE IF R.tz.k = "name" /\ \A k \in 1..Len(R.tz.id) : R.tz.id[k] \in AKeyChar THEN "time-zone-name-of-annotation-key-characters"
     ELSE IF R.k1 THEN "annotation-key-of-one-character"
     ELSE IF R.v1 THEN "annotation-value-of-one-character"
     ELSE IF R.vc1 THEN "annotation-value-with-one-character-component"
+    ELSE IF goal \in {"PlainYearMonth", "PlainMonthDay"} /\ R.form = "dt" /\ ~IsIso(R) THEN "full-date-form-non-iso-calendar"
+    \* a month-day written as a full date: the year is dropped, also when that date lies outside the limits of a PlainDate
+    ELSE IF goal = "PlainMonthDay" /\ R.form = "dt" THEN (IF R.date.y < -271820 \/ R.date.y > 275759 THEN "full-date-form-year-at-limit" ELSE "full-date-form")
     ELSE IF goal = "ZonedDateTime" /\ R.off.k = "z" THEN "utc-designator-with-time-zone-annotation"
     ELSE IF goal = "ZonedDateTime" /\ R.off.k = "num" /\ R.off.m # 0 THEN "offset-with-non-zero-minutes"
     ELSE IF goal = "ZonedDateTime" /\ R.off.k = "num" /\ R.off.sub THEN "offset-with-seconds"
